@@ -36,16 +36,19 @@ func Load(repoDir, pkgRel, harnessDir string) (*Program, error) {
 		return nil, err
 	}
 	for _, ent := range ents {
-		if ent.IsDir() || !strings.HasSuffix(ent.Name(), ".go") || strings.HasSuffix(ent.Name(), "_test.go") {
+		if ent.IsDir() || !strings.HasSuffix(ent.Name(), ".go") {
 			continue
+		}
+		v := filepath.Join(pkgDir, ent.Name())
+		ovPaths[v] = filepath.Join(harnessDir, ent.Name())
+		if strings.HasSuffix(ent.Name(), "_test.go") {
+			continue // only for the native replay build
 		}
 		b, err := os.ReadFile(filepath.Join(harnessDir, ent.Name()))
 		if err != nil {
 			return nil, err
 		}
-		v := filepath.Join(pkgDir, ent.Name())
 		overlay[v] = b
-		ovPaths[v] = filepath.Join(harnessDir, ent.Name())
 	}
 	cfg := &packages.Config{
 		Mode: packages.NeedName | packages.NeedFiles | packages.NeedCompiledGoFiles | packages.NeedImports |
